@@ -44,8 +44,9 @@ type Mod struct {
 
 // Pkg is a remote package the simulated fetcher can deliver.
 type Pkg struct {
-	Base      string  `json:"base"`            // address without query, e.g. git::https://example.com/r1.git
-	Query     string  `json:"query,omitempty"` // e.g. ref=main
+	Base      string  `json:"base"`               // address without query, e.g. git::https://example.com/r1.git
+	AltBase   string  `json:"alt_base,omitempty"` // another spelling of Base that names the same package and prints as Base
+	Query     string  `json:"query,omitempty"`    // e.g. ref=main
 	Files     []PFile `json:"files"`
 	Rules     *string `json:"rules,omitempty"` // .terraformignore content
 	Commit    string  `json:"commit,omitempty"`
